@@ -2,6 +2,7 @@
 //! --cfg grenad_verif) and records one ndjson event per public call. TLC validates the traces.
 mod cursor;
 mod decode;
+mod faults;
 mod files;
 mod io;
 mod iters;
@@ -52,6 +53,7 @@ fn run_scenario(out: &mut TraceOut, family: &str, seed: u64, idx: u64, heavy: bo
         "varint_windows" => varint::scn_windows(out, &mut r, heavy),
         "framing" => cursor::scn_framing(out, &mut r, idx, heavy),
         "wsched" => sched::scn_wsched(out, &mut r, idx, heavy),
+        "faults" => faults::scn_faults(out, &mut r, idx, heavy),
         "format" => layout::scn_format(out, &mut r, idx, heavy),
         "cut" => layout::scn_cut(out, &mut r, idx, heavy),
         "unsorted" => layout::scn_unsorted(out, &mut r, idx, heavy),
